@@ -287,3 +287,113 @@ Definition v_cont := "cont".
 Definition v_optimizer := "optimizer".
 Definition v_epoch := "epoch".
 Definition exc_type_error := "TypeError".
+
+(* ---- what the blocks must produce, read off the model (used by the tie lemmas) ----------------------- *)
+Definition head_expected (p : params) (c : list row) (o : outcome val) : Prop :=
+  let epoch := last_epoch c + 1 in
+  let cont0 := match p_num p with None => true | Some n => epoch <? n end in
+  match hget c (epoch - 1), o with
+  | None, Exc n _ => n = "TypeError"
+  | Some prev, Ok VNone st =>
+      var_in "epoch" st = Some (VInt epoch) /\ var_in "cont" st = Some (VBool cont0) /\
+      var_in "info" st = Some (enc_row prev)
+  | _, _ => False
+  end.
+
+(* row updates *)
+Definition set_lr (r : row) (l : Q) : row :=
+  mkRow (r_epoch r) (r_esres r) (r_espcd r) (r_rlrres r) (r_rlrpcd r) (Some l) (r_train r) (r_val r) (r_user r).
+Definition set_es (r : row) (a b : Z) : row :=
+  mkRow (r_epoch r) a b (r_rlrres r) (r_rlrpcd r) (r_lr r) (r_train r) (r_val r) (r_user r).
+Definition set_rlr (r : row) (a b : Z) (l : Q) : row :=
+  mkRow (r_epoch r) (r_esres r) (r_espcd r) a b (Some l) (r_train r) (r_val r) (r_user r).
+Definition set_rec (r : row) (epoch train va : Z) : row :=
+  mkRow epoch (r_esres r) (r_espcd r) (r_rlrres r) (r_rlrpcd r) (r_lr r) (Some train) (Some va) (r_user r).
+
+(* the row a cache lookup binds a variable to (None for a missing epoch) *)
+Definition vrow (o : option row) : val := match o with Some r => enc_row r | None => VNone end.
+
+(* state of the control part after the early-stopping statements *)
+Definition vars_es (self optim info : val) (epoch va train : Z) (cont : bool) (es_epoch es_info : val)
+  : list (string * val) :=
+  (vars_ctl self optim info epoch va train cont ++ [("es_epoch", es_epoch); ("es_info", es_info)])%list.
+
+Definition st_of (vs : list (string * val)) : state := mkState vs [].
+
+(* early-stopping countdown statements *)
+Definition es_expected (p : params) (c : list row) (os : list Q) (dflt : Q) (r : row) (u : list (val * val))
+  (epoch va train : Z) (cont : bool) (o : outcome ctl) : Prop :=
+  let e := epoch - es_pat p + r_espcd r - 1 in
+  match es_step p c r epoch va with
+  | None => exists st, o = Exc "TypeError" st
+  | Some (a, b) =>
+      o = Ok CNormal (st_of (vars_es (enc_self p c) (enc_opt os dflt) (enc_row_u (set_es r a b) u)
+                                     epoch va train cont (VInt e) (vrow (hget c e))))
+  end.
+
+(* the early-stopping part of the decision *)
+Definition es_cont (p : params) (espcd : Z) (cont : bool) : bool :=
+  if nonzero (es_thr p) && negb (nonzero espcd) then false else cont.
+
+(* what the learning-rate statements do to one parameter group's rate *)
+Definition rlr_o (p : params) (c : list row) (r : row) (epoch va : Z) (lr o : Q) : Q :=
+  match rlr_step p c r epoch va lr o with Some (_, _, _, o') => o' | None => o end.
+
+(* learning-rate countdown statements (info["lr"] holds the rate lr) *)
+Definition rlr_expected (p : params) (c : list row) (os : list Q) (dflt : Q) (r : row) (u : list (val * val))
+  (epoch va : Z) (cont : bool) (lr : Q) (o : outcome ctl) : Prop :=
+  match rlr_step p c r epoch va lr lr with
+  | None => exists st, o = Exc "TypeError" st
+  | Some (a, b, lr', _) =>
+      exists st, o = Ok CNormal st /\
+        var_in "info" st = Some (enc_row_u (set_rlr r a b lr') u) /\
+        var_in "cont" st = Some (VBool cont) /\
+        var_in "optimizer" st = Some (enc_opt (map (rlr_o p c r epoch va lr) os) dflt)
+  end.
+
+(* ... followed by info["epoch"] = epoch; info["val_met"] = val_met; info["train_met"] = train_met *)
+Definition rlr_rec_expected (p : params) (c : list row) (os : list Q) (dflt : Q) (r : row) (u : list (val * val))
+  (epoch va train : Z) (cont : bool) (lr : Q) (o : outcome ctl) : Prop :=
+  match rlr_step p c r epoch va lr lr with
+  | None => exists st, o = Exc "TypeError" st
+  | Some (a, b, lr', _) =>
+      exists st, o = Ok CNormal st /\
+        var_in "info" st = Some (enc_row_u (set_rec (set_rlr r a b lr') epoch train va) u) /\
+        var_in "cont" st = Some (VBool cont) /\
+        var_in "optimizer" st = Some (enc_opt (map (rlr_o p c r epoch va lr) os) dflt)
+  end.
+
+(* the whole control part: ufe_control run after the early-stopping/learning-rate inputs are in place *)
+Definition ctl_expected (p : params) (c : list row) (os : list Q) (dflt : Q) (r : row) (u : list (val * val))
+  (epoch va train : Z) (cont : bool) (lr : Q) (o : outcome ctl) : Prop :=
+  match es_step p c r epoch va with
+  | None => exists st, o = Exc "TypeError" st
+  | Some (a, b) =>
+      match rlr_step p c r epoch va lr lr with
+      | None => exists st, o = Exc "TypeError" st
+      | Some (a', b', lr', _) =>
+          exists st, o = Ok CNormal st /\
+            var_in "info" st
+            = Some (enc_row_u (mkRow epoch a b a' b' (Some lr') (Some train) (Some va) (r_user r)) u) /\
+            var_in "cont" st = Some (VBool (es_cont p b cont)) /\
+            var_in "optimizer" st = Some (enc_opt (map (rlr_o p c r epoch va lr) os) dflt)
+      end
+  end.
+
+(* if info["lr"] is None: ...; then the control part, as a function body *)
+Definition tail_expected (p : params) (c : list row) (os : list Q) (dflt : Q) (prev : row) (u : list (val * val))
+  (epoch va train : Z) (cont : bool) (o : outcome val) : Prop :=
+  let lr := match r_lr prev with Some l => l | None => dflt end in
+  match es_step p c prev epoch va with
+  | None => exists st, o = Exc "TypeError" st
+  | Some (a, b) =>
+      match rlr_step p c prev epoch va lr lr with
+      | None => exists st, o = Exc "TypeError" st
+      | Some (a', b', lr', _) =>
+          exists st, o = Ok VNone st /\
+            var_in "info" st
+            = Some (enc_row_u (mkRow epoch a b a' b' (Some lr') (Some train) (Some va) (r_user prev)) u) /\
+            var_in "cont" st = Some (VBool (es_cont p b cont)) /\
+            var_in "optimizer" st = Some (enc_opt (map (rlr_o p c prev epoch va lr) os) dflt)
+      end
+  end.
